@@ -57,21 +57,6 @@ Proof.
 Qed.
 
 (* ---------------------------------------------------------------- effect of the primitive steps *)
-Lemma close_handle_len s h :
-  length (s_ofds (close_handle s h)) = length (s_ofds s).
-Proof.
-  destruct h as [i|k| |j|j]; simpl; auto.
-  - destruct (nth_error (s_ofds s) i) as [o|]; auto. destruct (o_open o); auto.
-    simpl. apply length_list_upd.
-  - destruct (nth_error (s_pipes s) j) as [p|]; auto. destruct (pi_r p); auto.
-  - destruct (nth_error (s_pipes s) j) as [p|]; auto. destruct (pi_w p); auto.
-Qed.
-
-Lemma close_fop_len s f p : length (s_ofds (close_fop s f p)) = length (s_ofds s).
-Proof.
-  unfold close_fop. destruct (fo_file f); auto. destruct (p_file p); auto. apply close_handle_len.
-Qed.
-
 Lemma open_file_effect s pth fl i s2 :
   open_file s pth fl = Some (i, s2) ->
   i = length (s_ofds s)
@@ -215,7 +200,7 @@ Lemma exec_redir_inv s0 own0 x r :
 Proof.
   intros I. unfold exec_redir.
   destruct (eval_dst r) as [dz|]; [|exact I].
-  destruct (dz <? 0)%Z; [exact Logic.I|].
+  destruct (dz <? 0)%Z; [exact I|].
   set (d := Z.to_nat dz).
   destruct (release Impl x d) as [[s1 F2] df] eqn:ER.
   destruct (release_inv _ _ _ _ _ _ _ I ER) as (I1 & Hf & HL).
